@@ -13,6 +13,7 @@ package c07
 import (
 	"bufio"
 	"bytes"
+	"encoding/base64"
 	"encoding/json"
 	"fmt"
 	"io"
@@ -291,8 +292,51 @@ func Run(tier string) {
 		run.Exhaustive()
 	}
 	longLines(run)
+	charSweep(run)
 	oracle(run, rand.New(rand.NewSource(seed)))
 	run.Finish()
+}
+
+// charSweep: every byte value as the type, inside the type, as an argument and inside an argument of a stanza line.
+// Bytes 33..126 are the stanza alphabet: such a header parses and marshals back to itself (CheckCase's predicates,
+// with the expectation "accepted"); every other byte must be refused. The class alphabets of HeaderGen hold a few
+// representatives; a table or format-string driven implementation can be wrong for one character only.
+func charSweep(run *vk.Run) {
+	mac := base64.RawStdEncoding.EncodeToString(make([]byte, 32))
+	n := 0
+	for c := 0; c < 256; c++ {
+		if c == ' ' {
+			continue // the separator: inserting it only changes the number of arguments (covered by the class generators)
+		}
+		for _, line := range []string{"-> " + string([]byte{byte(c)}) + " a", "-> t" + string([]byte{byte(c)}) + "t a", "-> t " + string([]byte{byte(c)}), "-> t a" + string([]byte{byte(c)}) + "b " + string([]byte{byte(c), byte(c)})} {
+			in := []byte("age-encryption.org/v1\n" + line + "\nQUJD\n--- " + mac + "\npayload")
+			valid := c >= 33 && c <= 126
+			p, pan := parseWith(ReaderKinds[0], in)
+			run.Eval(1)
+			n++
+			label := fmt.Sprintf("char-sweep:%d", c)
+			if pan != nil {
+				run.Violation("C07:panic:"+label, fmt.Sprint(pan), replay(in, label, ReaderKinds[0]))
+				continue
+			}
+			if p.ok != valid {
+				if valid {
+					run.Violation("C07:canonical-reject:"+label, fmt.Sprintf("byte %d belongs to the stanza alphabet, yet %q is refused: %v", c, line, p.err), replay(in, label, ReaderKinds[0]))
+				} else {
+					run.Violation("C07:noncanonical-accept:"+label, fmt.Sprintf("byte %d is outside the stanza alphabet, yet %q is accepted", c, line), replay(in, label, ReaderKinds[0]))
+				}
+				continue
+			}
+			if p.ok {
+				out, err := marshal(p.hdr)
+				if err != nil || !bytes.Equal(append(out, p.rest...), in) {
+					run.Violation("C07:noncanonical-accept:"+label, fmt.Sprintf("%q parses, but marshals back as %q", line, trunc(out)), replay(in, label, ReaderKinds[0]))
+				}
+			}
+		}
+		run.Distinct(fmt.Sprintf("char-sweep:%d", c))
+	}
+	run.Add("char_sweep_headers", n)
 }
 
 // longLines: well-formed headers whose lines are longer than any internal buffer (bufio default 4096).
